@@ -226,6 +226,16 @@ func c19(env *core.Env) {
 
 	queries := append([]string{}, hosts...)
 	queries = append(queries, "unknown.example", "h1.example/not-a-url")
+	// every key written in the table is an entry of its own: asked for by that very
+	// string (URL-form keys included) a lookup gives what is written under it
+	var literal []string
+	for k := range doc.Auths {
+		if strings.Contains(k, "//") {
+			literal = append(literal, k)
+		}
+	}
+	sort.Strings(literal)
+	queries = append(queries, literal...)
 	var firstLoadErr *bool
 	firstLoadErrText := ""
 	var firstResults map[string]c19Result
